@@ -72,6 +72,8 @@ structure St where
   /-- files the test planted behind the back of the *running* instance: no daemon wrote them and
       no start-up has seen them yet, so the property says nothing about them until the next start-up -/
   excused : List String := []
+  /-- ids whose latest store ran under an injected I/O error: the record may be memory-only -/
+  unpersisted : List String := []
 deriving Inhabited
 
 def vclockStart : Int := 1000000000000
@@ -279,12 +281,17 @@ def implObs (st : St) (op : Op) (line : String) : Option Obs :=
 /-- judge the files of a directory listing (instance running, persistence + wipe-on-expiry on) -/
 def judgeLs (st : St) (entries : List (String × String)) : Option String :=
   if !(st.h.up && st.nc.store.persistent && st.nc.store.wipeOnExpiry) then none else
-  entries.findSome? fun (l, c) =>
+  let present := entries.findSome? fun (l, c) =>
     -- a file whose wipe failed with an injected I/O error is on the store's retry list: the next
     -- sweep without error must remove it, until then the property cannot ask for more
     if l.startsWith "!" || st.excused.contains l || (st.h.w.sys.pending.map labelOf).contains l then none
     else if l.startsWith "?" then some "file-outlives-chunk"
     else StoreSpec.judgeFile st.spec.s st.h.cleaned l (decodeBytes (candidates st l) c)
+  match present with
+  | some v => some v
+  | none =>
+    -- "a chunk's file exists while the chunk is live": the file of a live, successfully persisted chunk is there
+    (StoreSpec.missingFile st.spec.s st.spec.now (entries.map (·.1)) st.unpersisted).map fun _ => "file-missing"
 
 def doInit (st : St) (tok : List String) (trace : Bool) : Option (St × String) :=
   let mk (node : Bool) (d mn mx ci : Int) (rest : List String) : Option (St × String) :=
@@ -339,7 +346,14 @@ def execOp (st : St) (op : Op) (impl : Option String) (trace : Bool) (φ : Fault
       -- under an injected write error the overwrite cannot be completed: only the removal is demanded
       else if trace && φ.isEmpty && st.nc.store.persistent && st.nc.store.wipeOnExpiry && badWipe (wipedOf ops) wiped
         then "viol:wipe-overwrite" else "ok"
-  let st' := { st with h := hstep st.nc st.h (.fail op φ), spec := StoreSpec.step (params st) st.spec op }
+  let stored : Option String := match op with
+    | .store id .. => some id
+    | .nstore id .. => some id
+    | _ => none
+  let unp := match stored with
+    | some id => if φ.isEmpty then st.unpersisted.filter (· != id) else id :: st.unpersisted
+    | none => st.unpersisted
+  let st' := { st with h := hstep st.nc st.h (.fail op φ), spec := StoreSpec.step (params st) st.spec op, unpersisted := unp }
   (st', out, verdict)
 
 def stepLine (trace : Bool) (st : St) (tok : List String) (_line : String) (impl : Option String) : St × String × String :=
